@@ -55,7 +55,19 @@ type mapRange struct {
 	Line     int    `json:"line,omitempty"` // informative only, not compared
 	Class    string `json:"class"`
 	Why      string `json:"why"`
+	// Pins: other functions the classification relies on (e.g. the less function of a
+	// later sort); their re-printed bodies are hashed and compared as well.
+	Pins []c07Pin `json:"pins,omitempty"`
 }
+
+type c07Pin struct {
+	File     string `json:"file"`
+	Func     string `json:"func"`
+	BodyHash string `json:"body_sha256"`
+}
+
+// c07FuncHashes: "file|func" -> hash of the re-printed body, for every function of the module (filled by c07Scan).
+var c07FuncHashes = map[string]string{}
 
 func (m mapRange) id() string {
 	return fmt.Sprintf("%s|%s|%d", m.File, m.Func, m.Ordinal)
@@ -272,6 +284,8 @@ func c07Scan(src string) ([]mapRange, []string, error) {
 					if d.Body != nil {
 						ord := 0
 						scanBody(c07FuncName(d), d.Body, &ord)
+						fsum := sha256.Sum256([]byte(c07NodeText(fset, d.Body)))
+						c07FuncHashes[fname+"|"+c07FuncName(d)] = fmt.Sprintf("%x", fsum[:12])
 					}
 				case *ast.GenDecl: // function literals in package-level variable initialisers
 					ord := 0
@@ -306,6 +320,19 @@ func c07CountRangeStmts(src string) (int, error) {
 		return nil
 	})
 	return n, err
+}
+
+func c07PinsChanged(a mapRange) string {
+	for _, p := range a.Pins {
+		h, ok := c07FuncHashes[p.File+"|"+p.Func]
+		if !ok {
+			return fmt.Sprintf("pinned function %s %s is gone", p.File, p.Func)
+		}
+		if h != p.BodyHash {
+			return fmt.Sprintf("pinned function %s %s changed (body %s, audited %s)", p.File, p.Func, h, p.BodyHash)
+		}
+	}
+	return ""
 }
 
 func c07CoqComment(s string) string {
@@ -345,6 +372,9 @@ func genMapRange(src string) (string, string, error) {
 		switch {
 		case !ok:
 			problems = append(problems, fmt.Sprintf("new map range %s:%d %s #%d over %s (%s)", f.File, f.Line, f.Func, f.Ordinal, f.Expr, f.Type))
+		case c07PinsChanged(a) != "":
+			matched[f.id()] = true
+			problems = append(problems, fmt.Sprintf("map range %s %s #%d: %s", f.File, f.Func, f.Ordinal, c07PinsChanged(a)))
 		case a.BodyHash != f.BodyHash || a.Expr != f.Expr || a.Vars != f.Vars:
 			matched[f.id()] = true
 			problems = append(problems, fmt.Sprintf("changed map range %s:%d %s #%d over %s (body %s, audited %s over %s)", f.File, f.Line, f.Func, f.Ordinal, f.Expr, f.BodyHash, a.BodyHash, a.Expr))
@@ -357,7 +387,7 @@ func genMapRange(src string) (string, string, error) {
 		default:
 			matched[f.id()] = true
 			code = c07Classes[a.Class]
-			f.Class, f.Why = a.Class, a.Why
+			f.Class, f.Why, f.Pins = a.Class, a.Why, a.Pins
 		}
 		codes = append(codes, fmt.Sprintf("  (* %s *) %d", c07CoqComment(fmt.Sprintf("%s %s #%d: %s", f.File, f.Func, f.Ordinal, f.Expr)), code))
 	}
@@ -381,7 +411,7 @@ func genMapRange(src string) (string, string, error) {
 		}
 	}
 	if dump := os.Getenv("VERIF_C07_DUMP"); dump != "" {
-		o := map[string]any{"comment": audit.Comment, "range_stmts_total": nRange, "loops": found, "type_errors": typeErrs}
+		o := map[string]any{"comment": audit.Comment, "range_stmts_total": nRange, "loops": found, "type_errors": typeErrs, "IsAbove_hash": c07FuncHashes["changes.go|(*Change).IsAbove"]}
 		b, _ := json.MarshalIndent(o, "", " ")
 		os.WriteFile(dump, append(b, '\n'), 0o644)
 	}
